@@ -93,12 +93,52 @@ def event_kind(ctx, callee, decl=None, resolved=True):
 _HC = {}
 
 
+class _Collect:
+    """stand-in for ctx that only records whether a rule complained"""
+
+    def __init__(self, ctx):
+        self.ctx = ctx
+        self.bad = 0
+
+    def __getattr__(self, name):
+        return getattr(self.ctx, name)
+
+    def ok(self, *a, **k):
+        pass
+
+    def instance(self, *a, **k):
+        pass
+
+    def note(self, *a, **k):
+        pass
+
+    def violation(self, *a, **k):
+        self.bad += 1
+
+    def inconclusive(self, *a, **k):
+        self.bad += 1
+
+    def floor(self, *a, **k):
+        return True
+
+
 def helper_clean(ctx, key):
     k = (id(ctx), key)
     if k not in _HC:
         _HC[k] = False
         st = typestate(ctx, key)
-        _HC[k] = st is not None and st['has_clean'] and not st['dirty_returns']
+        ok = st is not None and st['has_clean'] and not st['dirty_returns']
+        if not ok and key in ctx.facts().bodies:
+            # an inline recomputer (writes checkers/pinned itself, like make_move): clean iff it meets the recomputer rules
+            eff = ctx.eff()
+            if (BOARD, 'checkers') in eff.direct.get(key, ()):
+                col = _Collect(ctx)
+                try:
+                    recomputer(col, 'C03.R2', key)
+                    ok = col.bad == 0
+                except Exception:
+                    ok = False
+        _HC[k] = ok
     return _HC[k]
 
 
@@ -129,6 +169,17 @@ def typestate(ctx, key):
                 ek = event_kind(ctx, t['callee'], t.get('decl'), bool(t.get('resolved')))
                 if ek:
                     state = ek
+            else:
+                # the board is handed BY VALUE to a crate function that produces the board to return
+                # (`return result.validate_edit()`): the obligation moves into that function
+                moved = False
+                for a in t['args']:
+                    pl = a.get('m') or a.get('c')
+                    if pl is not None and not pl['p'] and body.locals[pl['l']]['ty'] == BOARD:
+                        moved = True
+                fn_ = f.fns.get(t['callee']) or {}
+                if moved and t['callee'] in f.bodies and 'board::Board' in str(fn_.get('output', '')) and helper_clean(ctx, t['callee']):
+                    state = 'clean'
         return state
     instate = {0: 'clean'}
     order = cfg.order
